@@ -106,6 +106,19 @@ def compare(site, got, exact, labels, ctx):
     return []
 
 
+def spot(site, kern, F, pv, pts, exact, labels, viol, as_python=True):
+    """eager evaluation (no jit / vmap) of a few (field, parameter corner, point) triples, scalar parameters as Python floats"""
+    for fi in sorted({0, len(F) // 2, len(F) - 1}):
+        for ci in sorted({0, len(pv) - 1}):
+            for pi in (0, len(pts) - 1):
+                par = [float(x) for x in pv[ci]] if as_python else jnp.asarray(pv[ci])
+                e = np.asarray(kern(jnp.asarray(F[fi]), par, jnp.asarray(pts[pi]))).reshape(-1)
+                ex = np.asarray(exact[fi, ci, pi]).reshape(-1)
+                if np.any(np.abs(e - ex) > 1e-9 * (1 + np.abs(ex))):
+                    viol.append(V(site, "eager_residual_differs_from_documented_equation", f"field {labels[fi]} params {pv[ci].tolist()} point {pts[pi].tolist()}: got {e.tolist()} expected {ex.tolist()}"))
+                    return
+
+
 def setp(nn0, coef):
     return eqx.tree_at(lambda mm: mm.coef, nn0, coef)
 
@@ -139,6 +152,7 @@ def run_case(case):
                 exact[i, j] = J[(0,)][0] + T * (J[()][0] * J[(1,)][0] - c["nu"] * J[(1, 1)][0])
         labels = [str([(c_, expo[m]) for c_, m in cb]) for cb in combos]
         viol += compare("BurgerEquation", got, exact, labels, f"Tmax={T}")
+        spot("BurgerEquation", kern, F, pv, pts, exact, labels, viol)
     elif eq == "fisher":
         d = case["d"]
         nvar, expo = 1 + d, nets.monomials(1 + d, deg)
@@ -164,6 +178,7 @@ def run_case(case):
                 exact[i, j] = J[(0,)][0] - T * (c["D"] * lap + U * (c["r"] - c["g"] * U))
         labels = [str([(c_, expo[m]) for c_, m in cb]) for cb in combos]
         viol += compare(f"FisherKPP/d{d}", got, exact, labels, f"Tmax={T} d={d}")
+        spot(f"FisherKPP/d{d}", kern, F, pv, pts, exact, labels, viol)
     elif eq == "ou":
         nvar, expo = 3, nets.monomials(3, deg)
         pts = grid_points(3, k)
@@ -192,6 +207,7 @@ def run_case(case):
                 exact[i, j] = -J[(0,)][0] + T * (-order1 + order2)
         labels = [str([(c_, expo[m]) for c_, m in cb]) for cb in combos]
         viol += compare("OU_FPENonStatioLoss2D", got, exact, labels, f"Tmax={T}")
+        spot("OU_FPENonStatioLoss2D", kern, F, pv, pts, exact, labels, viol, as_python=False)
     elif eq == "glv":
         viol += run_glv(case)
         return dict(viol=viol, evals=case["ns"] * 50, nontrivial=[f"glv|{case['ns']}|{case['layout']}|{case['perm']}|{T}|{i}" for i in range(3)],
@@ -254,6 +270,7 @@ def run_case(case):
                     exact[i, j, :, comp] = adv + gp / c["rho"] - c["nu"] * lap
         labels = [str([(c_, expo[m]) for c_, m in cb]) for cb in combos]
         viol += compare(f"NavierStokes2DStatio/{case['layout']}", got, exact, labels, "")
+        spot(f"NavierStokes2DStatio/{case['layout']}", kern, F, pv, pts, exact, labels, viol)
     nontrivial = [f"{eq}|{case.get('d')}|{case.get('layout')}|{T}|{labels[i]}" for i in range(len(labels)) if np.any(np.abs(exact[i]) > 0)]
     return dict(viol=viol, evals=int(np.prod(exact.shape)), nontrivial=nontrivial, outcomes=[f"{eq}|{case.get('d')}|{case.get('layout')}|{T}|{round(float(np.sum(np.abs(exact))), 5)}"],
                 sample={"case": case, "fields": len(labels), "param_corners": len(cs), "points": len(pts)})
